@@ -265,6 +265,7 @@ func (rs *rowStore) processInserts(offsetsBySource common.OffsetsBySource, stop 
 				if err != nil {
 					rs.t.log.Errorf("Unable to write updated offset: %v", err)
 				}
+				verifEvent("repl.persist", rs.t.Name, rs.t.db.opts.Partition, rs.t.db.opts.ID, false)
 				ms.offsetChanged = false
 			}
 
@@ -306,6 +307,7 @@ func (rs *rowStore) processInserts(offsetsBySource common.OffsetsBySource, stop 
 			}
 			rs.mx.Unlock()
 			verifCountApplied(rs.t)
+			verifEvent("repl.apply", rs.t.Name, rs.t.db.opts.Partition, rs.t.db.opts.ID, insert.source, insert.offset, insert.key != nil)
 		case <-flushTimer.C:
 			rs.t.log.Trace("Requesting flush due to flush interval")
 			flush(false)
@@ -459,6 +461,7 @@ func (rs *rowStore) doProcessFlush(ms *memstore, allowSort, allowFailure bool) (
 	rs.memStore = ms
 	rs.mx.Unlock()
 	verifEvent("flush.swapped", rs.t.Name)
+	verifEvent("repl.persist", rs.t.Name, rs.t.db.opts.Partition, rs.t.db.opts.ID, true)
 
 	flushDuration := time.Now().Sub(start)
 	if fi != nil {
